@@ -68,7 +68,7 @@ CLAIMS = {
              "constraint generated by the plan REGENERATED from the sources holds and EVERY class LMI is symmetric PSD. The "
              "proof goes: generated item -> samples (ClassGen lemmas) -> operator semantics (C06) -> formula = reference "
              "condition (FormulaEq, over the regenerated formula) -> member lemma. Tie: translator + exact correspondence of "
-             "set_class_constraints() on all 24 classes + real numerical members recorded through the real API.",
+             "set_class_constraints() on all 24 classes + real numerical members recorded through the real API. The failing-input search includes non-gradient members on the boundary of the operator classes (scaled rotations, membership proved in Coq).",
         ref="DESIGN.md 5.3",
         note="class membership definitions are hand-written specifications; three textbook equivalences (Lipschitz gradient "
              "<-> two-sided quadratic bound, subdifferential of a support function, Pazy) are trusted; RsiEb under the "
@@ -98,7 +98,7 @@ CLAIMS = {
              "add_point / combine operation, hence after every op sequence, under a decidable guard (no zero weight after "
              "merging, i.e. the composite is not the zero function, no explicit zero coefficient in a query point; cancelling "
              "weights are covered since the fix: commit 5162ea4); without the guard it is refuted with witnesses (findings "
-             "F-C07b,c,d,e). Tie: exhaustive short and random long op sequences compared exactly with the model.",
+             "F-C07b,c,d,e). Tie: exhaustive short and random long op sequences compared exactly with the model. The shipped class constructors are tied to the model's reuse rule (forced flags regenerated from the sources in Gen/Classes.v); query points are terms compiled by the Point-algebra model and the tie checks on every call that the implementation's decomposition is that normal form.",
         ref="DESIGN.md 5.7",
         note="object aliasing is not observable in the dumps (only mutation is the idempotent prune); steps call add_point "
              "on not-yet-recorded points (scoping guard)",
@@ -145,7 +145,7 @@ CLAIMS = {
              "that is in the class-constraint list), 0 elsewhere; the dual table mirrors it cell by cell; names contain "
              "function id and condition and determine the pair for unnamed samples; block-smooth per-block tables likewise "
              "(after the fix: commits, also for the block-smooth and linear-operator classes, unguarded). Tie: "
-             "exact correspondence of tables, labels, names and get_class_constraints_duals() with position-tagged duals.",
+             "exact correspondence of tables, labels, names and get_class_constraints_duals() with position-tagged duals. An end-to-end stream goes through the real solve path (scripted wrapper, both return modes, heuristics, vacuous conditions) and reads every dual table back against the send positions.",
         ref="DESIGN.md 5.17",
         note="name injectivity proved for unnamed points only (user names may collide)",
         technique="Coq proof (lists of any length) + model/implementation correspondence"),
@@ -181,7 +181,7 @@ CLAIMS = {
              "inner-product space and valuation: blocks sum back, second call is idempotent, one block is the identity, the "
              "solve-time list is exactly the cross-block orthogonality relations (all, none extra), real coordinate "
              "projections of R^n satisfy everything generated. Model (Model/Blocks.v) tied to block_partition.py by exact "
-             "correspondence on seeded scenarios incl. the solve-time loop.",
+             "correspondence on seeded scenarios incl. the solve-time loop. At solve time the constraints sent are exactly those of all registered partitions (several partitions, one-block / unused / constructor-built ones, decomposed temporaries collected before the solve).",
         ref="DESIGN.md 5.15",
         note="object identity represented by harness object numbers; C15_block_smooth is C03's BlockSmoothConvex theorem",
         technique="Coq proof (induction over call histories; R^n masks) + model/implementation correspondence"),
